@@ -7,6 +7,8 @@ CONSTANTS
   AllowRelate = TRUE
   AllowQueryX = TRUE
   AllowSweep = TRUE
+  CopyModes = {}
+  UnregisteredModes = {}
   Hist = FALSE
   PopIdOfNone = FALSE
   StaleRelationIndex = FALSE
